@@ -142,6 +142,10 @@ impl Property for P {
             8 => (0..PREFIXES.len()).prop_map(|i| PREFIXES[i].to_string()),
             1 => gen::token_text(gen::Mix::FULL.no_endings(), 3).prop_map(|s| s.replace('\n', "")),
         ];
+        let text = prop_oneof![
+            80 => text,
+            1 => gen::log_count(400).prop_flat_map(|k| margin_text(k, true)),
+        ];
         (text, prefix)
             .prop_map(|(text, prefix)| Case { text, prefix })
             .boxed()
